@@ -185,7 +185,72 @@ if __name__ == "__main__":
         def shrink(self, d):
             return [e for e in netlib.shrink_netlist(d) if e["comps"] and e["comps"][0].get("ps")]
 
-    main("C06", [PurityStream(), MonitorReread(), LaterBuiltStream()],
+    import c04
+    import numpy as np
+    from common import cf, clist, cmat
+
+    class BlockHistory(Stream):
+        """every library block solved several times IN A ROW on the same object, consecutive solves differing in ONE
+        argument: each answer must be the one a freshly built block gives for those arguments (no scratch state of a
+        block survives a solve)"""
+        name = "block_history"
+        imports = "Field Matrix Base Kernel Network Solve Params Sweep Corr"
+        case_type = "blk_case"
+        verdict_fn = "blk_verdict"
+        shard_size = 12
+
+        def generate(self, rng, tier):
+            out = []
+            for name, (_, params) in c04.BLOCKS.items():
+                if name.startswith("FPRGaussian") and tier == "quick":
+                    continue
+                for _ in range(1 if tier == "quick" else 4):
+                    cur = {q: round(1.0 + rng.randint(0, 80) / 64.0, 6) for q in params}
+                    hist = [dict(cur)]
+                    order = list(params)
+                    rng.shuffle(order)
+                    for q in order + [rng.choice(params)]:        # every argument gets a step of its own
+                        cur[q] = round(1.0 + rng.randint(0, 80) / 64.0, 6)
+                        hist.append(dict(cur))
+                    if rng.random() < 0.5:
+                        hist.append(dict(hist[0]))          # back to the first assignment
+                    out.append({"block": name, "hist": hist, "in_solver": rng.random() < 0.3})
+            return out
+
+        def run(self, d):
+            def mat(mod):
+                names = sorted(p.name for p in mod.pin_dic)
+                return cmat(netlib.observe_expo(mod, names, 0), cf)
+            make = lambda: c04.BlockStream._obj(None, d)
+            fresh = []
+            for a in d["hist"]:
+                try:
+                    fresh.append("Obs " + mat(make().solve(**a)))
+                except Exception:
+                    fresh.append("Raised")
+            try:
+                obj = make()
+                seq = "Obs " + clist(mat(obj.solve(**a)) for a in d["hist"])
+            except Exception:
+                seq = "Raised"
+            return "{| bk_scalar := %s; bk_sweep := %s |}" % (clist(fresh), seq)
+
+        def nontrivial(self, d):
+            return len(d["hist"]) >= 3
+
+        def classify(self, d):
+            return d["block"]
+
+        def shrink(self, d):
+            out = []
+            for i in range(len(d["hist"])):
+                if len(d["hist"]) > 2:
+                    e = copy.deepcopy(d)
+                    del e["hist"][i]
+                    out.append(e)
+            return out
+
+    main("C06", [PurityStream(), MonitorReread(), LaterBuiltStream(), BlockHistory()],
          level_text="props/C06.v; the tie solves a hierarchy and its (shared) sub-solvers in random order with random "
                     "argument subsets, keeps every result alive, reads each result right after its call and again after all "
                     "later calls, and compares both readings with the model's history-free value for that call; spy leaves "
@@ -193,7 +258,8 @@ if __name__ == "__main__":
                     "structures, connections, exposed pins, renamings and defaults of every solver are compared around each call. "
                     "A further stream builds the same circuit again AFTER earlier solves (from fresh objects, incl. blocks created "
                     "without a parameter dictionary) and requires the model's answer for the defaults: a solve has no effect on "
-                    "circuits built later.",
+                    "circuits built later. A fourth stream solves every library block several times in a row on the same object "
+                    "(consecutive solves differ in one argument) and requires the answers of freshly built blocks.",
          trusted_base=TRUSTED,
          assumptions=["'results already returned are not mutated' is a statement about Python aliasing: it is observed over "
                       "the histories run (the model proves history-freedom of the values)"])
